@@ -63,15 +63,17 @@ def replay_cases(path):
     return uniq
 
 
-def run_cases(chk, cases, label, old_model=False):
-    """Run implementation + monitors on each case, then the model inside Coq on all of them."""
+def run_cases(chk, cases, label, old_model=False, runner=None):
+    """Run implementation + monitors on each case, then the model inside Coq on all of them.
+    runner: how the backends are presented to the core (default: synchronous fake proxies)."""
     import c09_emit as E
     import c09_impl as I
 
+    runner = runner or I.run_case
     rows = []
     for idx, case in enumerate(cases):
-        obs = I.run_case(case, salt=idx)
-        M.check_case(chk, case, obs, I, salt=idx)
+        obs = runner(case, salt=idx)
+        M.check_case(chk, case, obs, I, salt=idx, runner=runner)
         try:
             term = E.case_term(case, obs)
         except E.Unencodable as e:
@@ -207,6 +209,74 @@ def _without_base(x):
     return x
 
 
+def real_backend_cases(chk):
+    """Populations expressible by provider presence: every subset of {library, library with
+    browse, playback, playlists} on a backend next to a fully equipped one, under every request
+    kind; plus generated populations restricted to consistent subsets."""
+    T = lambda i: ["track", i, True]  # noqa: E731
+    full = {"lookup_many": ["map", [["b:1", [T(2001)]]]], "get_images": ["map", [["b:1", [["image", 2001, True]]]]],
+            "search": ["val", "search", 2001], "root_directory": ["val", "ref", 2001], "browse": ["list", [["ref", 2002, True]]],
+            "get_distinct": ["list", [["str", 2001, True]]], "as_list": ["list", [["ref", 2003, True]]],
+            "create": ["val", "playlist", 2001], "get_items": ["list", [["ref", 2004, True]]],
+            "pl_lookup": ["val", "playlist", 2002], "save": ["val", "playlist", 2003], "delete": ["bool", True]}
+    mine = {"lookup_many": ["map", [["a:1", [T(1001)]]]], "get_images": ["map", [["a:1", [["image", 1001, True]]]]],
+            "search": ["val", "search", 1001], "root_directory": ["val", "ref", 1001], "browse": ["list", [["ref", 1002, True]]],
+            "get_distinct": ["list", [["str", 1001, True]]], "as_list": ["list", [["ref", 1003, True]]],
+            "create": ["val", "playlist", 1001], "get_items": ["list", [["ref", 1004, True]]],
+            "pl_lookup": ["val", "playlist", 1002], "save": ["val", "playlist", 1003], "delete": ["bool", True]}
+    ops = [{"name": "lookup", "uris": ["a:1", "b:1"]}, {"name": "get_images", "uris": ["b:1", "a:1"]},
+           {"name": "search", "query": "good", "uris": None, "exact": False},
+           {"name": "search", "query": "good", "uris": ["a:1"], "exact": False},
+           {"name": "browse", "uri": None}, {"name": "browse", "uri": "a:1"},
+           {"name": "get_distinct", "field": "artist", "query": "none"}, {"name": "refresh", "uri": None},
+           {"name": "refresh", "uri": "a:1"}, {"name": "as_list"}, {"name": "get_items", "uri": "a:1"},
+           {"name": "pl_lookup", "uri": "a:1"}, {"name": "create", "pname": "p1", "scheme": "a"},
+           {"name": "create", "pname": "p1", "scheme": None}, {"name": "save", "pname": "p1", "uri": "a:1"},
+           {"name": "delete", "uri": "a:1"}, {"name": "pl_refresh", "scheme": "a"}, {"name": "pl_refresh", "scheme": None},
+           {"name": "get_uri_schemes"}, {"name": "core_schemes"}]
+    cases = []
+    for lib, browse in ((False, False), (True, False), (True, True)):
+        for playback in (False, True):
+            for playlists in (False, True):
+                for op in ops:
+                    cases.append({"backends": [
+                        {"schemes": ["a", "c"], "info_ok": True, "lib": lib, "browse": browse, "playback": playback,
+                         "playlists": playlists, "answers": dict(mine)},
+                        {"schemes": ["b"], "info_ok": True, "lib": True, "browse": True, "playback": True,
+                         "playlists": True, "answers": dict(full)}], "mixer": None, "op": copy.deepcopy(op)})
+    rng = vlib.Rng(chk.seed, "C09-real-classes")
+    n = 250 if chk.tier == "quick" else 3000
+    while n > 0:
+        c = _without_base(G.gen_case(rng))
+        if c["op"]["name"] in ("get_volume", "set_volume", "get_mute", "set_mute", "construct"):
+            continue
+        for i, b in enumerate(c["backends"]):
+            b["info_ok"] = True
+            b["browse"] = b["browse"] and b["lib"]
+            if b["browse"]:
+                b["answers"]["root_directory"] = ["val", "ref", 1000 * (i + 1) + 1]
+        cases.append(c)
+        n -= 1
+    return cases
+
+
+def real_backend_stage(chk):
+    """The backends as real subclasses of mopidy.backend.Backend (inherited has_library /
+    has_library_browse / has_playback / has_playlists, real provider base classes, real pykka
+    actors and proxies): the capability methods of the base class feed the routing tables, so
+    they are part of what C09 depends on although core/ does not contain them."""
+    import c09_pykka as K
+
+    cases = real_backend_cases(chk)
+    assert all(K.real_class_case_ok(c) for c in cases)
+    for c in cases:
+        for b in c["backends"]:
+            b["_real_class"] = True  # emitted as Model.backend_of (providers set), not as raw flags
+    chk.dist("real-backend-class-cases", len(cases))
+    ok = run_cases(chk, cases, "real-backend-classes", runner=K.run_case_real)
+    chk.obligation("corr:real_backend_classes", "correspondence", ok)
+
+
 def pykka_stage(chk):
     """The synchronous fake proxies against the same scripts run as real pykka ThreadingActors
     behind real proxies: both must give the controllers the same observation."""
@@ -333,7 +403,9 @@ def run(chk):
     ]
     chk.assumptions = [
         "pykka proxies/futures are scripted as synchronous fakes whose .get() raises or returns; the fakes are "
-        "compared with real pykka ThreadingActors behind real proxies on a sample of the cases (corr:pykka_proxies)",
+        "compared with real pykka ThreadingActors behind real proxies on a sample of the cases (corr:pykka_proxies); "
+        "a further part of the populations is built from real mopidy.backend.Backend subclasses with inherited "
+        "has_* capability methods (corr:real_backend_classes)",
         "pydantic model classes: only isinstance() and .uri truthiness are modelled",
         "validation of the caller's own arguments (query/field/URI syntax) is an oracle: enumerated argument "
         "classes, URI scheme 0 = rejected by check_uri",
@@ -374,6 +446,7 @@ def run(chk):
     c09_validation.stage(chk)
     c09_validation.answers_stage(chk)
     scheme_stage(chk)
+    real_backend_stage(chk)
     pykka_stage(chk)
     if chk.tier == "thorough":
         old_code_stage(chk, 6000)
